@@ -698,10 +698,14 @@ class EGen:
                 return ("B", "mul", g("str"), ("C", r.choice([0, 1, 2, 3])))
             if k == 5 and self.filters:
                 return ("F", g("str"), r.choice(["upper", "lower", "string", "safe", "escape", "e"]), [])
+            # filter ARGUMENTS that are themselves autoescape-sensitive constants (a ~ with a safe operand, a join)
+            sens = (lambda: ("~", [self.atom("str"), ("F", ("C", r.choice(["<b>", "x&y"])), "safe", [])])
+                    if r.random() < 0.6 else ("F", ("L", [self.atom("str"), ("F", ("C", "<i>"), "safe", [])]), "join", []))
+            arg = (lambda: sens() if (self.const_rich and r.random() < 0.35) else g("str"))
             if k == 6 and self.filters:
-                return ("F", g("list"), "join", [g("str")] if r.random() < 0.7 else [])
+                return ("F", g("list"), "join", [arg()] if r.random() < 0.7 else [])
             if k == 7 and self.filters:
-                return ("F", g("any"), r.choice(["default", "d"]), [g("str")] + ([("C", True)] if r.random() < 0.3 else []))
+                return ("F", g("any"), r.choice(["default", "d"]), [arg()] + ([("C", True)] if r.random() < 0.3 else []))
             if k == 8:
                 return ("sl", g("str"), *[(g("int") if r.random() < 0.5 else None) for _ in range(3)])
             if k == 9:
@@ -728,6 +732,8 @@ class EGen:
                 return ("is", g("int"), r.choice(["odd", "even"]), [])
             if k == 8:
                 return ("is", g("int"), r.choice(["divisibleby", "eq", "ne", "lt", "gt", "le", "ge"]), [g("int")])
+            if self.const_rich and r.random() < 0.4:
+                return ("is", g("str"), r.choice(["eq", "ne", "in"]), [("~", [self.atom("str"), ("F", ("C", "<b>"), "safe", [])])])
             return ("is", g("any"), "in", [g(r.choice(["list", "str"]))])
         if ty == "list":
             k = r.randint(0, 6)
